@@ -16,24 +16,28 @@ DESIGN_REF = "§5 C06"
 TECHNIQUE = ("Coq proof: archive interpolation search = lower bound on every sorted list (termination included); read-back of every chunk / "
              "absent addresses / counts / sizes for the written table; in-Coq byte-for-byte comparison of model-written files with files "
              "written by tableWriter and planTableConjoin, and of all reads (tables, conjoined tables, archives)")
-LEVEL_TEXT = ("Proof (F/M for table files, index-search level for archives, correspondence for conjoin): table_roundtrip from the BYTES - for every "
-              "record list with distinct addresses (equal 8-byte prefixes allowed) that fits the format and every prefix-sorted outcome of the index "
-              "sort, the written file re-opens (parse_write_table: footer + three index regions decode to the index), reports count and summed "
-              "uncompressed size, returns every chunk byte for byte (CRC checked), reports every absent address absent, and iterateAllChunks yields "
-              "exactly the stored chunks; prollyBinSearch (archive index interpolation search on unbounded numbers) terminates and returns "
-              "lower_bound on every sorted list. NOT proved, checked by correspondence only: conjoin_roundtrip (model conjoin_with is compared byte "
-              "for byte with planTableConjoin's output and all reads, duplicates included), archive files beyond the index search.")
+LEVEL_TEXT = ("Proof (F/M for table files and conjoin; index level for archives): table_roundtrip from the BYTES - for every record list with distinct "
+              "addresses (equal 8-byte prefixes allowed) that fits the format and every prefix-sorted outcome of the index sort, the written file "
+              "re-opens (parse_write_table), reports count and summed uncompressed size, returns every chunk byte for byte (CRC checked), reports "
+              "every absent address absent, iterateAllChunks yields exactly the stored chunks; conjoin_is_table / conjoin_roundtrip - "
+              "planTableConjoin's output is byte for byte the table file of the concatenated record lists and serves exactly the union of its "
+              "inputs (duplicate addresses kept and served from one of the equal copies), counts and sizes add up; archives: prollyBinSearch "
+              "terminates and returns lower_bound on every sorted list, findIndex returns the position of h iff stored (find_index_spec), the "
+              "index block (span ends / prefixes / chunk refs / suffixes) decodes to the reader's arrays (archive_index_roundtrip) and the "
+              "decoded lookup returns exactly the staged chunk reference (archive_roundtrip). NOT proved: archive data section, dictionaries, "
+              "metadata, footer - real archives (also > maxSamples chunks: dictionary path) are compared with the chunk set by correspondence.")
 LEVEL_NOTE = ("Trusted: Coq kernel, translator, Go harness + Python glue. Parameters: checksum function, snappy (opaque payload bytes supplied by the "
               "implementation). Modelled, not verified: archive byte-span data section, zstd dictionaries, metadata/footer of archives (archive "
               "reads are checked by correspondence only; the proved part is the index search), streaming sinks, read batching.")
-THEOREMS = ["table_roundtrip", "parse_write_table", "prolly_bin_search_spec"]
+THEOREMS = ["table_roundtrip", "parse_write_table", "conjoin_is_table", "conjoin_roundtrip", "conjoin_default_valid", "prolly_bin_search_spec",
+            "find_index_spec", "find_index_present", "archive_index_roundtrip", "archive_roundtrip"]
 RULE = ("chunk sets of 1-22 chunks over colliding address pools (see C01), payloads of 1-24 bytes (random, constant, repeated); conjoins of 2-4 tables "
         "with and without duplicated chunks; probes = present, absent inside present prefix runs, adjacent prefixes, sorted by prefix with 20% "
         "already-found flags; sorted uint64 slices (dense runs, duplicates, 0 and 2^64-1) with targets at, next to and between elements; "
         "distinct by content")
 ASSUMPTIONS = ["an address determines the chunk bytes (duplicates across conjoined tables carry equal bytes)",
-               "archives below 1000 chunks (snappy byte spans, no dictionary); larger archives only exercise the same index search"]
-REQUIRED_TAGS = ["table", "conjoin", "conjoin-duplicates", "archive", "search", "prefix-collision", "absent-in-run", "early-exit", "pre-found",
+               "archives over maxSamples=1000 chunks (dictionary build + zstd staging) are compared as chunk sets inside the harness (counts fed to Coq), not byte-modelled"]
+REQUIRED_TAGS = ["table", "conjoin", "conjoin-duplicates", "archive", "archive-over-maxsamples", "search", "prefix-collision", "absent-in-run", "early-exit", "pre-found",
                  "search-dup", "search-absent", "search-beyond"]
 
 
@@ -113,6 +117,9 @@ def gen_cases(rng, tier):
     cases += [gen_table(rng, rng.randint(2, 4)) for _ in range(25 * m)]
     cases += [gen_archive(rng) for _ in range(25 * m)]
     cases += [gen_search(rng) for _ in range(250 * m)]
+    # archive conversion with more chunks than maxSamples (=1000): snappy queue, dictionary build, zstd staging
+    big = [1001, 1002] if tier == "quick" else [999, 1000, 1001, 1002, 1003, 2001, 3001]
+    cases += [{"kind": "bigarchive", "n": n, "seed": rng.randrange(1 << 30)} for n in big]
     return cases
 
 
@@ -140,13 +147,21 @@ def coq_case(case, out):
         if o is None:
             return "(%s, OFail 99)" % inp
         return "(%s, OSearch %d)" % (inp, o["r"])
+    if k == "bigarchive":
+        if o is None:
+            return "(IBig %d 0, OFail 99)" % case["n"]
+        return "(IBig %d %d, OBig %d %d %d %d %d %d %s)" % (case["n"], o["nabsent"], o["count"], o["nhas"], o["ngetok"], o["niter"], o["niterok"],
+                                                              o["nabsentok"], cq_bool(o["sorted"]))
     if k == "archive":
         if o is None:
-            return "(IArchive %s [] [] %s, OFail 99)" % (_chunks(case["chunks"]), cq_list(cq_addr(a) for a in case["probes"]))
+            return "(IArchive %s [] [] %s [] [], OFail 99)" % (_chunks(case["chunks"]), cq_list(cq_addr(a) for a in case["probes"]))
         sfx = cq_list(str(int.from_bytes(bytes(s), "big")) for s in (o.get("suffixes") or []))
-        inp = "IArchive %s %s %s %s" % (_chunks(case["chunks"]), cq_list(str(p) for p in (o.get("prefixes") or [])), sfx,
-                                        cq_list(cq_addr(a) for a in case["probes"]))
-        return "(%s, OArchive %d %s %s %s)" % (inp, o["count"], _bools(o.get("has")), _opts(o.get("get")), _chunks(o.get("iter")))
+        inp = "IArchive %s %s %s %s %s %s" % (_chunks(case["chunks"]), cq_list(str(p) for p in (o.get("prefixes") or [])), sfx,
+                                              cq_list(cq_addr(a) for a in case["probes"]),
+                                              cq_list(str(x) for x in (o.get("spanlens") or [])),
+                                              cq_list("(%d, %d)" % (r[0], r[1]) for r in (o.get("refs") or [])))
+        return "(%s, OArchive %d %s %s %s %s)" % (inp, o["count"], _bools(o.get("has")), _opts(o.get("get")), _chunks(o.get("iter")),
+                                                   cq_bytes(o.get("idx") or []))
     # table / conjoin
     probes = cq_list(cq_addr(a) for a in case["probes"])
     pre = _bools(case["pre"])
@@ -180,6 +195,8 @@ def classify(case, out):
         if not s:
             t.append("search-empty")
         return t
+    if k == "bigarchive":
+        return ["archive-over-maxsamples" if case["n"] > 1000 else "archive-big-under-maxsamples"]
     if k == "archive":
         t.append("archive")
         cs = case["chunks"]
@@ -211,6 +228,11 @@ def nontrivial(case, out):
 
 def shrink_candidates(case):
     k = case["kind"]
+    if k == "bigarchive":
+        for n in (1001, 1002, 2001):
+            if n < case["n"]:
+                yield dict(case, n=n)
+        return
     if k == "search":
         s = case["s"]
         for i in range(len(s)):
